@@ -11,6 +11,11 @@ Continuation of Props/PyLegacy.lean: more methods of the legacy `DSD_Complex` AS
           `EnOk`  truthy cached exterior domains come with cached (not `None`) enclosed domains
   `py_kernel_string_eq`, `py_legacy_kernel_string_eq_current`
         `kernel_string` = `LObj.kernelString` for EVERY object; on equal lengths it is the current API's kernel string
+  `py_views_after_rotate_once`
+        `legacy_views_after_rotate_once` (Props/C20FullViews) transferred in full: after a successful `rotate_once()` as written
+        the six caches are `None` and the translated `get_paired_loc`, `get_loop_index`, `get_domain`, `exterior_domains`,
+        `enclosed_domains`, `strand_length` answer like the current API on the turned representation (error kinds bridged by
+        `errOf_plain`: these views raise only SecondaryStructureError / interpreter faults, on which both namings agree)
   `py_inv_new`, `py_inv_run`
         `Inv` holds for what `__init__` assigns and after EVERY sequence of the modelled state-changing methods (`Op2`)
   `py_exterior_needs_liOk`, `py_enclosed_needs_enOk`
@@ -20,6 +25,7 @@ Continuation of Props/PyLegacy.lean: more methods of the legacy `DSD_Complex` AS
 import DsdVerif.Props.PyLegacy
 import DsdVerif.Lemmas.PyLegacyInv
 import DsdVerif.Lemmas.PyLegacyKernel
+import DsdVerif.Lemmas.PyLegacyPlain
 
 namespace Dsd.PyLegacy
 open Dsd Dsd.Gen Dsd.Lg
@@ -110,6 +116,79 @@ theorem py_legacy_kernel_string_eq_current (o : LObj) (h : o.seq.length = o.sst.
     (py_DSD_Complex_kernel_string).exec (ofL o) = (.ok (Dsd.kernelString o.seq o.sst).toList, ofL o) := by
   rw [py_kernel_string_eq, LgL.kernelString_eq o h]; rfl
 
+/-! ### transferred: all of `legacy_views_after_rotate_once` -/
+
+/-- the answer of a translated view that returns the cached `None`-able list: `None` is NOT an answer of the current API -/
+def locsAns : Except Err (Option (List Locus)) → Ans
+  | .ok (some l) => .locs l
+  | .ok none => .err (.fault "None")
+  | .error e => .err e
+
+theorem bridge_nat (r : LObj × Except LErr Nat) (hp : ∀ e, r.2 = .error e → Plain e) :
+    natAns (exAns r).1 = C20V.ansNat r.2 := by
+  obtain ⟨o1, r2⟩ := r
+  cases r2 with
+  | ok a => rfl
+  | error e => simp only [natAns, exAns, C20V.ansNat, errOf_plain e (hp e rfl)]
+
+theorem bridge_str (r : LObj × Except LErr String) (hp : ∀ e, r.2 = .error e → Plain e) :
+    strAns (exAns r).1 = C20V.ansStr r.2 := by
+  obtain ⟨o1, r2⟩ := r
+  cases r2 with
+  | ok a => rfl
+  | error e => simp only [strAns, exAns, C20V.ansStr, errOf_plain e (hp e rfl)]
+
+theorem bridge_oloc (r : LObj × Except LErr (Option Locus)) (hp : ∀ e, r.2 = .error e → Plain e) :
+    olocAns (exAns r).1 = C20V.ansOLoc r.2 := by
+  obtain ⟨o1, r2⟩ := r
+  cases r2 with
+  | ok a => rfl
+  | error e => simp only [olocAns, exAns, C20V.ansOLoc, errOf_plain e (hp e rfl)]
+
+theorem bridge_locs (r : LObj × Except LErr (List Locus)) (hp : ∀ e, r.2 = .error e → Plain e) :
+    locsAns (optAns r).1 = C20V.ansLocs r.2 := by
+  obtain ⟨o1, r2⟩ := r
+  cases r2 with
+  | ok a => rfl
+  | error e => simp only [locsAns, optAns, C20V.ansLocs, errOf_plain e (hp e rfl)]
+
+/-- **after a successful `rotate_once()` as written, the translated views answer like the current API on the turned
+    representation** (all conjuncts of C20V.legacy_views_after_rotate_once, as statements about the code) -/
+theorem py_views_after_rotate_once (o : LObj) (h : o.seq.length = o.sst.length) (nx : List String × List Char)
+    (hrot : Dsd.rotateOnce o.seq o.sst = .ok nx) :
+    ∃ s', (py_DSD_Complex_rotate_once).exec (ofL o) = (.ok (), s') ∧ (s'._sequence, s'._structure) = nx ∧
+      s'._pair_table = none ∧ s'._loop_index = none ∧ s'._lol_sequence = none ∧ s'._exterior_domains = none ∧
+      s'._strand_lengths = none ∧ s'._enclosed_domains = none ∧
+      (∀ l, olocAns ((py_DSD_Complex_get_paired_loc l).exec s').1 = (C20V.cur (LgL.rotated o nx)).answer (.getPairedLoc l)) ∧
+      (∀ l, natAns ((py_DSD_Complex_get_loop_index l).exec s').1 = (C20V.cur (LgL.rotated o nx)).answer (.getLoopIndex l)) ∧
+      (∀ l, strAns ((py_DSD_Complex_get_domain l).exec s').1 = (C20V.cur (LgL.rotated o nx)).answer (.getDomain l)) ∧
+      locsAns ((py_DSD_Complex_exterior_domains).exec s').1 = (C20V.cur (LgL.rotated o nx)).answer .exterior ∧
+      locsAns ((py_DSD_Complex_enclosed_domains).exec s').1 = (C20V.cur (LgL.rotated o nx)).answer .enclosed ∧
+      (∀ k, natAns ((py_DSD_Complex_strand_length k).exec s').1 = (C20V.cur (LgL.rotated o nx)).answer (.strandLength k)) := by
+  obtain ⟨o', ho', _, _, _, _, _, _, _, c1, c2, c3, c4, c5, c6⟩ := C20V.legacy_views_after_rotate_once o h nx hrot
+  have : o' = LgL.rotated o nx := by rw [C20F.legacy_rotate_once_obj o h nx hrot] at ho'; exact (Prod.mk.inj ho').1.symm
+  subst this
+  have hinv : Inv (LgL.rotated o nx) :=
+    ⟨fun _ ht => (by cases ht), fun _ ht => (by cases ht), fun _ ht => (by cases ht)⟩
+  refine ⟨_, py_legacy_rotate_once_obj o h nx hrot, rfl, rfl, rfl, rfl, rfl, rfl, rfl, ?_, ?_, ?_, ?_, ?_, ?_⟩
+  · intro l
+    rw [py_get_paired_loc_eq, ← c1 l]
+    exact bridge_oloc _ (fun e he => getPairedLoc_plain _ _ e he)
+  · intro l
+    rw [py_get_loop_index_eq _ hinv.pt, ← c2 l]
+    exact bridge_nat _ (fun e he => getLoopIndex_plain _ _ e he)
+  · intro l
+    rw [py_get_domain_eq, ← c3 l]
+    exact bridge_str _ (fun e he => getDomain_plain _ _ e he)
+  · rw [py_exterior_domains_eq _ hinv, ← c4]
+    exact bridge_locs _ (fun e he => exterior_plain _ e he)
+  · rw [py_enclosed_domains_eq _ hinv, ← c5]
+    exact bridge_locs _ (fun e he => enclosed_plain _ e he)
+  · intro k
+    rw [py_strand_length_eq, ← c6 k]
+    exact bridge_nat _ (fun e he => strandLength_plain _ _ e he)
+
+#print axioms py_views_after_rotate_once
 #print axioms py_kernel_string_eq
 #print axioms py_legacy_kernel_string_eq_current
 #print axioms py_exterior_domains_eq
